@@ -181,18 +181,32 @@ pub fn suite_c18(ctx: &mut Ctx) {
                 }).collect();
                 (x, cs)
             } else {
-                // x = 1 (all powers are 1): the constant coefficient is big, the next one is exactly half an
-                // ulp of it (a tie), and one more coefficient is dust far below (sticky bits across limbs)
-                let sc = ctx.rng.gen_range(-maxs / 2..maxs);
-                let big = gen::from_scale(ty.n, ty.es, sc, [0u64, u64::MAX, 1 << 63, ctx.rng.gen::<u64>()][(r / 2) % 4]);
-                let (_, s2, nf, _) = gen::decode(ty.n, ty.es, big);
-                let x = 1u64 << (ty.n - 2);
-                let half = gen::from_scale(ty.n, ty.es, s2 - nf as i32 - 1, 0);
+                // the constant coefficient is big; (next coefficient) * x is exactly half an ulp of it (a tie);
+                // one more coefficient times a saturated power of the tiny x is dust > 64 bits below
+                let mut found = None;
+                for _ in 0..40 {
+                    let sc = ctx.rng.gen_range(-maxs / 4..maxs);
+                    let big = gen::from_scale(ty.n, ty.es, sc, [0u64, u64::MAX, 1 << 63, ctx.rng.gen::<u64>()][(r / 2) % 4]);
+                    let (_, s2, nf, _) = gen::decode(ty.n, ty.es, big);
+                    let x = gen::from_scale(ty.n, ty.es, -ctx.rng.gen_range(maxs / 2..=maxs), 0);
+                    let (_, sx, _, fx) = gen::decode(ty.n, ty.es, x);
+                    let want = s2 - nf as i32 - 1 - sx; // scale of the coefficient with coefficient * x = half ulp
+                    if fx != 0 || want > maxs || want < -maxs {
+                        continue;
+                    }
+                    let ch = gen::from_scale(ty.n, ty.es, want, 0);
+                    let (_, sh, _, fh) = gen::decode(ty.n, ty.es, ch);
+                    if sh == want && fh == 0 {
+                        found = Some((big, x, ch));
+                        break;
+                    }
+                }
+                let (big, x, ch) = match found { Some(t) => t, None => continue };
                 let mut cs: Vec<Vec<u64>> = (0..nc).map(|_| vec![0u64]).collect();
                 cs[nc - 1] = vec![big];
-                cs[nc - 2] = vec![half];
+                cs[nc - 2] = vec![ch];
                 if nc >= 3 {
-                    let d = gen::from_scale(ty.n, ty.es, ctx.rng.gen_range(-maxs..(s2 - 66).clamp(-maxs + 1, maxs)), ctx.rng.gen::<u64>());
+                    let d = [1u64, 2, 3, gen::from_scale(ty.n, ty.es, -maxs + ctx.rng.gen_range(0..6), ctx.rng.gen::<u64>())][ctx.rng.gen_range(0..4)];
                     cs[ctx.rng.gen_range(0..nc - 2)] = vec![if ctx.rng.gen::<bool>() { gen::neg(ty.n, d) } else { d }];
                 }
                 if ctx.rng.gen::<bool>() {
